@@ -18,8 +18,7 @@ PROPERTY = "C13"
 LEVEL = "model_checking"
 RULE = (
     "grammars assgn/block/tags/null/list/pairs x hosts (all closed trees up to a node bound and all their one-node open prefixes) x "
-    "inserted trees (every single open nonterminal; every one-step expansion with open children; two-step expansions along the first "
-    "nonterminal child) x method bitmasks 1..7 x max_num_solutions in {1, 50}; a schema is (grammar, inserted-tree shape, methods); "
+    "inserted trees (every partial tree of every nonterminal: each nonterminal open or expanded, expansion depth <= 3, <= 8/10 nodes x method bitmasks (quick: each single method and all three; thorough: 1..7) x max_num_solutions in {1, 50}; a schema is (grammar, inserted-tree shape, methods); "
     "non-trivial iff some call returned results and some call returned none"
 )
 ASSUMPTIONS = [
@@ -63,31 +62,22 @@ def hosts(name, tier):
     return out
 
 
-def insertables(name):
-    """(shape name, reference tree without ids)"""
+def insertables(name, tier="quick"):
+    """(shape name, reference tree without ids): every partial tree (each nonterminal open or expanded) of every
+    nonterminal up to an expansion depth and node bound - what existential elimination inserts for match expressions"""
+    from ..universe.trees import partial_trees
+
     cg = canon(GRAMS[name])
     out = []
+    d, n = (3, 8) if tier == "quick" else (3, 10)
     for X in cg:
         if X == "<start>":
             continue
-        out.append((f"open:{X}", (X, None)))
-        for ai, alt in enumerate(cg[X]):
-            if not any(is_nt(s) for s in alt):
-                continue
-            kids = tuple((s, None) if is_nt(s) else (s, ()) for s in alt)
-            out.append((f"step1:{X}/{ai}", (X, kids)))
-            # two steps: expand the first nonterminal child by each of its alternatives that has a nonterminal
-            for ci, s in enumerate(alt):
-                if not is_nt(s):
-                    continue
-                for bi, alt2 in enumerate(cg[s]):
-                    if not any(is_nt(z) for z in alt2):
-                        continue
-                    sub = (s, tuple((z, None) if is_nt(z) else (z, ()) for z in alt2))
-                    k2 = list(kids)
-                    k2[ci] = sub
-                    out.append((f"step2:{X}/{ai}/{bi}", (X, tuple(k2))))
-                break
+        for t in partial_trees(cg, X, d, n):
+            if t[1] is None:
+                out.append((f"open:{X}", t))
+            else:
+                out.append((f"expanded:{X}/{RT.depth(t) - 1}", t))
     return out
 
 
@@ -167,14 +157,38 @@ def check_call(r, name, g, cg, icg, graph, host, ins_name, ins, methods, maxsol)
                                 (gc[0] == kc[0]) if kc[1] is None else (gc[2] == kc[2]) for gc, kc in zip(got, kids)
                             )
                             if not ok:
-                                bad = ("inserted-structure-changed", f"children of inserted node {i} ({lab}) changed")
+                                relabelled = got is None or [c[0] for c in got] != [c[0] for c in kids]
+                                if relabelled and _kept_as_subsequence(kids, got):
+                                    # the node got a longer alternative; all inserted children are still there (open ones by label)
+                                    bad = ("inserted-node-re-expanded", f"node {i} ({lab}) of the inserted tree now has children {[c[0] for c in got or ()]} instead of {[c[0] for c in kids]}")
+                                elif relabelled:
+                                    bad = ("inserted-children-dropped", f"node {i} ({lab}) of the inserted tree now has children {[c[0] for c in got or ()]}; its inserted children {[c[0] for c in kids]} are gone")
+                                else:
+                                    bad = ("inserted-structure-changed", f"children of inserted node {i} ({lab}) were replaced by other nodes")
                                 break
         if bad:
             shape = "open-node" if ins_name.startswith("open:") else "expanded-inserted-tree"
-            r.viol(f"{bad[0]}/{'with' if methods & 4 else 'without'}-context-addition/{shape}",
+            key = f"{bad[0]}/{'with' if methods & 4 else 'without'}-context-addition/{shape}"
+            if methods & 4 and bad[0] in ("inserted-node-re-expanded", "inserted-children-dropped", "inserted-structure-changed", "inserted-node-lost"):
+                # context addition is documented as lossy in the source; the known finding lists the exact
+                # (grammar, inserted tree, symptom) instances that fail on the pinned tree
+                key = f"context-addition-loses-inserted-nodes/{name}/{_show(iref)}/{bad[0]}"
+            r.viol(key,
                    f"insert_tree({_show(iref)!r} into {_show(href)!r}, methods={methods}, max={maxsol}) returned {_show(ref)!r}: {bad[1]}",
                    case, "valid tree containing host nodes and inserted tree", _show(ref))
-            return
+
+
+def _kept_as_subsequence(kids, got):
+    """every inserted child is still a child, in order: expanded/closed ones by id, open ones by label"""
+    j = 0
+    got = got or ()
+    for kc in kids:
+        while j < len(got) and not ((got[j][0] == kc[0]) if kc[1] is None else (got[j][2] == kc[2])):
+            j += 1
+        if j == len(got):
+            return False
+        j += 1
+    return True
 
 
 def _show(t):
@@ -196,12 +210,12 @@ def run_chunk(chunk):
     icg = canonical(g)
     graph = gg.GrammarGraph.from_grammar(g)
     H = hosts(name, tier)[chunk["lo"]:chunk["hi"]]
-    INS = insertables(name)
+    INS = insertables(name, tier)
     for host in H:
         r.state(name, host)
         for ins_name, ins in INS:
-            for methods in range(1, 8):
-                for maxsol in ((1, 50) if tier == "thorough" or methods in (3, 7) else (50,)):
+            for methods in (range(1, 8) if tier == "thorough" else (1, 2, 4, 7)):
+                for maxsol in ((1, 50) if tier == "thorough" or methods == 7 else (50,)):
                     try:
                         with time_cap(60):
                             check_call(r, name, g, cg, icg, graph, host, ins_name, ins, methods, maxsol)
